@@ -250,7 +250,7 @@ fn echo_image(src: &[[f32; 3]], f: impl Fn(&[[f32; 3]]) -> Result<Vec<[f32; 3]>,
 /// unequal offsets (the band between "exactly grey" and "visibly coloured" that lattices and random samples never hit)
 fn near_neutral(max1: bool) -> Vec<[f32; 3]> {
     let mut v = Vec::new();
-    for &g in &[1.0f32, 0.999, 0.9, 0.5, 0.18, 0.02] {
+    for &g in &[1.0f32, 0.999, 0.985, 0.9, 0.5, 0.18, 0.02, 0.0125] {
         for k in 6..=23 {
             // quarter-octave steps: no band of relative width 20% between 2^-24 and 2^-6 is skipped
             for (j, m) in [1.0f32, 1.19, 1.41, 1.68].into_iter().enumerate() {
@@ -568,6 +568,26 @@ pub fn gen_c17(sh: &mut Shards, o: &Opts) -> serde_json::Value {
     for g in 0..=64 {
         let v = g as f32 / 64.0;
         px.push([v, v, v]);
+    }
+    // nearly grey pixels (S is judged for 0.01 <= L <= 0.99, the round trip everywhere)
+    px.extend(near_neutral(true));
+    // hues a hair away from every sextant boundary: the middle channel 2^-8 .. 2^-26 (quarter-octave steps) of the chroma
+    // above the minimum or below the maximum, for every ordering of the channels (the float just below 360 is among them)
+    for &(hi, lo) in &[(1.0f32, 0.0f32), (0.8, 0.2)] {
+        for p in perms {
+            for k in 8..=26 {
+                for m in [1.0f32, 1.19, 1.41, 1.68] {
+                    let d = (hi - lo) * 2f32.powi(-k) * m;
+                    for mid in [lo + d, hi - d] {
+                        let mut q = [0f32; 3];
+                        q[p[0]] = hi;
+                        q[p[1]] = mid;
+                        q[p[2]] = lo;
+                        px.push(q);
+                    }
+                }
+            }
+        }
     }
     let n = px.len() as u64;
     for (at, w, h) in cut_images(px.len(), 3) {
